@@ -4,6 +4,7 @@ package main
 
 import (
 	"fmt"
+	"regexp"
 	"go/constant"
 	"go/types"
 	"math/big"
@@ -132,6 +133,9 @@ func (c *ExprCtx) expr(x CExpr) TV {
 					return c.pkgMember(p, x.Sel)
 				}
 			}
+		}
+		if a, t, ok := c.lvalue(x); ok {
+			return TV{V: e.load(c.st, a, t), Typ: t}
 		}
 		base := c.expr(x.X)
 		return c.selectField(base, x.Sel)
@@ -366,8 +370,14 @@ func (c *ExprCtx) localAtPoint(name string) (TV, bool) {
 		}
 	}
 	for i, fv := range fr.fn.FreeVars {
-		if fv.Name() == name && i < len(fr.bind) {
-			pv := e.asPtr(fr.bind[i], fv.Type())
+		if fv.Name() == name {
+			var b Val
+			if i < len(fr.bind) {
+				b = fr.bind[i]
+			} else {
+				b = e.val(fr, fv)
+			}
+			pv := e.asPtr(b, fv.Type())
 			et := fv.Type().Underlying().(*types.Pointer).Elem()
 			return TV{V: e.load(c.st, pv.A, et), Typ: et}, true
 		}
@@ -684,15 +694,11 @@ func (c *ExprCtx) call(x CCall) TV {
 			if !ok {
 				c.fail("bound variable expected")
 			}
-			bv := T{quoteSym("bv!" + v.Name), SInt}
+			bv := T{"|bv!" + v.Name + "|", SInt}
 			lo, hi := c.intExpr(x.Args[1]), c.intExpr(x.Args[2])
 			inner := c.withBound(v.Name, TV{V: bv})
 			body := inner.boolExpr(x.Args[3])
-			rng := And(Le(lo, bv), Lt(bv, hi))
-			if id.Name == "forall" {
-				return TV{V: T{"(forall ((" + bv.S + " Int)) " + Imp(rng, body).S + ")", SBool}, Typ: types.Typ[types.Bool]}
-			}
-			return TV{V: T{"(exists ((" + bv.S + " Int)) " + And(rng, body).S + ")", SBool}, Typ: types.Typ[types.Bool]}
+			return TV{V: e.rangeQuant(id.Name == "forall", bv, lo, hi, body), Typ: types.Typ[types.Bool]}
 		case "ret":
 			return c.retOf(x.Args)
 		case "retn":
@@ -1066,4 +1072,187 @@ func lastPathElem(p string) string {
 		return p[i+1:]
 	}
 	return p
+}
+
+// lvalue computes the address denoted by x.f / a[i] / *p chains without loading whole structs.
+func (c *ExprCtx) lvalue(x CExpr) (Addr, types.Type, bool) {
+	e := c.e
+	switch x := x.(type) {
+	case CSel:
+		if id, ok := x.X.(CIdent); ok {
+			if _, shadow := c.bound[id.Name]; !shadow && !c.isValueName(id.Name) && c.importedPkg(id.Name) != nil {
+				return Addr{}, nil, false
+			}
+		}
+		// base as an address of a struct
+		var a Addr
+		var st types.Type
+		if ba, bt, ok := c.lvalue(x.X); ok {
+			if pt, isPtr := under(bt).(*types.Pointer); isPtr {
+				// stored pointer: load it, then address through it
+				pv := e.asPtr(e.load(c.st, ba, bt), bt)
+				a, st = pv.A, pt.Elem()
+			} else {
+				a, st = ba, bt
+			}
+		} else {
+			var base TV
+			ok2 := func() (ok bool) {
+				defer func() {
+					if r := recover(); r != nil {
+						if _, isCP := r.(contractPanic); isCP {
+							ok = false
+							return
+						}
+						panic(r)
+					}
+				}()
+				base = c.expr(x.X)
+				return true
+			}()
+			if !ok2 || base.Typ == nil {
+				return Addr{}, nil, false
+			}
+			pt, isPtr := under(base.Typ).(*types.Pointer)
+			if !isPtr {
+				return Addr{}, nil, false
+			}
+			a, st = e.asPtr(base.V, base.Typ).A, pt.Elem()
+		}
+		if _, isStruct := under(st).(*types.Struct); !isStruct {
+			return Addr{}, nil, false
+		}
+		path := fieldPath(st, x.Sel)
+		if path == nil {
+			return Addr{}, nil, false
+		}
+		cur := st
+		for k, idx := range path {
+			su := under(cur).(*types.Struct)
+			ft := su.Field(idx).Type()
+			fa := e.fieldAddr(a, cur, idx)
+			if k == len(path)-1 {
+				return fa, ft, true
+			}
+			if ept, ok := under(ft).(*types.Pointer); ok {
+				pv := e.asPtr(e.load(c.st, fa, ft), ft)
+				a, cur = pv.A, ept.Elem()
+			} else {
+				a, cur = fa, ft
+			}
+		}
+	case CIndex:
+		var base TV
+		if ba, bt, ok := c.lvalue(x.X); ok {
+			if _, isSlice := under(bt).(*types.Slice); isSlice {
+				base = TV{V: e.load(c.st, ba, bt), Typ: bt}
+			} else if at, isArr := under(bt).(*types.Array); isArr {
+				i := c.intExpr(x.I)
+				if _, isStruct := under(at.Elem()).(*types.Struct); isStruct {
+					sa, _ := e.structAddr(ba)
+					return Addr{Kind: ARef, Base: e.elemAddr(sa, i)}, at.Elem(), true
+				}
+				ba.I = &i
+				if ba.Kind == ARef {
+					ba.S = bt
+				}
+				return ba, at.Elem(), true
+			} else {
+				return Addr{}, nil, false
+			}
+		} else {
+			ok2 := func() (ok bool) {
+				defer func() {
+					if r := recover(); r != nil {
+						if _, isCP := r.(contractPanic); isCP {
+							ok = false
+							return
+						}
+						panic(r)
+					}
+				}()
+				base = c.expr(x.X)
+				return true
+			}()
+			if !ok2 || base.Typ == nil {
+				return Addr{}, nil, false
+			}
+		}
+		sl, isSlice := under(base.Typ).(*types.Slice)
+		if !isSlice {
+			return Addr{}, nil, false
+		}
+		sv := base.V.(*SliceV)
+		i := Add(sv.Off, c.intExpr(x.I))
+		if _, isStruct := under(sl.Elem()).(*types.Struct); isStruct {
+			return Addr{Kind: ARef, Base: e.elemAddr(sv.Base, i)}, sl.Elem(), true
+		}
+		return Addr{Kind: AElem, Base: sv.Base, I: &i}, sl.Elem(), true
+	case CUn:
+		if x.Op == "*" {
+			tv := c.expr(x.X)
+			if tv.Typ != nil {
+				if pt, ok := under(tv.Typ).(*types.Pointer); ok {
+					return e.asPtr(tv.V, tv.Typ).A, pt.Elem(), true
+				}
+			}
+		}
+	}
+	return Addr{}, nil, false
+}
+
+var bvRe = regexp.MustCompile(`\|bv![A-Za-z0-9_]+\|`)
+
+// rangeQuant encodes forall/exists over an integer range [lo, hi) as a recursive function of the
+// upper bound (one unfolding per loop iteration suffices for invariant preservation; no
+// quantifier instantiation heuristics are involved).
+func (e *Enc) rangeQuant(isForall bool, bv, lo, hi, body T) T {
+	if e.eng.quantMode == "quantifier" {
+		rng := And(Le(lo, bv), Lt(bv, hi))
+		if isForall {
+			return T{"(forall ((" + bv.S + " Int)) " + Imp(rng, body).S + ")", SBool}
+		}
+		return T{"(exists ((" + bv.S + " Int)) " + And(rng, body).S + ")", SBool}
+	}
+	// other bound variables occurring free become parameters
+	seen := map[string]bool{bv.S: true}
+	var extra []string
+	for _, m := range bvRe.FindAllString(lo.S+" "+body.S, -1) {
+		if !seen[m] {
+			seen[m] = true
+			extra = append(extra, m)
+		}
+	}
+	kind := "ex"
+	if isForall {
+		kind = "all"
+	}
+	key := "quant:" + kind + "|" + lo.S + "|" + body.S
+	name, ok := e.quantFns[key]
+	if !ok {
+		name = quoteSym(fmt.Sprintf("%s!%d", kind, len(e.quantFns)))
+		e.quantFns[key] = name
+		h := "|qh|"
+		step := strings.ReplaceAll(body.S, bv.S, "(- "+h+" 1)")
+		params := "(" + h + " Int)"
+		rec := "(" + name + " (- " + h + " 1)"
+		for _, x := range extra {
+			params += " (" + x + " Int)"
+			rec += " " + x
+		}
+		rec += ")"
+		var def string
+		if isForall {
+			def = fmt.Sprintf("(define-fun-rec %s (%s) Bool (ite (<= %s %s) true (and %s %s)))", name, params, h, lo.S, rec, step)
+		} else {
+			def = fmt.Sprintf("(define-fun-rec %s (%s) Bool (ite (<= %s %s) false (or %s %s)))", name, params, h, lo.S, rec, step)
+		}
+		e.s.decls = append(e.s.decls, def)
+	}
+	app := "(" + name + " " + hi.S
+	for _, x := range extra {
+		app += " " + x
+	}
+	app += ")"
+	return T{app, SBool}
 }
